@@ -272,6 +272,31 @@ def isrot2(R, check=False):
 
 # ---------------------------------------------------------------------------------------#
 
+def trnorm2(T):
+    """
+    Normalize an SO(2) or SE(2) matrix
+
+    :param T: SO(2) or SE(2) matrix
+    :type T: ndarray(2,2) or ndarray(3,3)
+    :return: normalized SO(2) or SE(2) matrix
+    :rtype: ndarray(2,2) or ndarray(3,3)
+    :raises ValueError: bad arguments
+
+    - ``trnorm2(R)`` is the proper rotation closest to ``R``, its angle is
+      ``atan2(R[1,0] - R[0,1], R[0,0] + R[1,1])``.
+    - ``trnorm2(T)`` as above but the translational part is passed through
+      unchanged.
+
+    :seealso: :func:`~spatialmath.base.transforms3d.trnorm`
+    """
+    if not ishom2(T) and not isrot2(T):
+        raise ValueError("expecting SO(2) or SE(2)")
+    R = rot2(math.atan2(T[1, 0] - T[0, 1], T[0, 0] + T[1, 1]))
+    if ishom2(T):
+        return base.rt2tr(R, T[:2, 2])
+    else:
+        return R
+
 def trinv2(T):
     r"""
     Invert an SE(2) matrix
